@@ -38,7 +38,7 @@ def run_c09(pid, tier, seed, replay):
         # every sequence (within the bound) of values, disposes and unintelligible changes and calls: model checked
         # (nothing lost behind a bad change, every call returns, errors at most once per bad change) and replayed
         outs = []
-        for c, workers in ([("MC_SampleCache_q_bad.cfg", 4)] if tier == "quick" else [("MC_SampleCache_q_bad.cfg", 4), ("MC_SampleCache_t_bad.cfg", 12)]):
+        for c, workers in ([("MC_SampleCache_q_bad.cfg", 4), ("MC_SampleCache_q_nk.cfg", 6)] if tier == "quick" else [("MC_SampleCache_q_bad.cfg", 4), ("MC_SampleCache_t_bad.cfg", 12), ("MC_SampleCache_t_nk.cfg", 12)]):
             o, info = tlc("SampleCache.tla", c, os.path.join(d, "tlc_mc"), workers=workers, timeout=3000)
             if not info.get("ok"):
                 log(o[-1500:]); raise ToolError(f"model checking {c} did not complete cleanly: {info}")
@@ -46,7 +46,7 @@ def run_c09(pid, tier, seed, replay):
             log(f"[mc] {c}: {info['states']} distinct states, {info['transitions']} transitions")
             outs.append(o)
         rp = os.path.join(d, "tlc_replays.jsonl")
-        n_tlc, _ = extract_replays("\n".join(outs), rp, limit=(1500 if tier == "quick" else 12000), seed=seed)
+        n_tlc, _ = extract_replays("\n".join(outs), rp, limit=(2500 if tier == "quick" else 16000), seed=seed)
         with open(sf, "a") as f:
             for line in open(rp):
                 r = json.loads(line)
